@@ -83,16 +83,16 @@ def _case(draw):
         X, y, _ = draw(R.training_set(regime, d, classes, 1, 8))
         case["train_X"], case["train_y"] = X, y
         case["fit_clf"] = draw(st.booleans())
-        n = draw(st.sampled_from([5, 8, 12, 20, 30, 40] if spec["clf"]
-                                 else [5, 10, 20, 40, 60]))
+        n = draw(st.sampled_from([12, 20, 8, 30, 5, 40] if spec["clf"]
+                                 else [20, 10, 40, 5, 60]))
         case["stream"] = draw(R.rows(regime, d, n, n))
     else:
-        n = draw(st.sampled_from([5, 10, 20, 40, 60]))
+        n = draw(st.sampled_from([20, 10, 40, 5, 60]))
         case["stream"] = draw(R.utilities(
             n, n, nan_ok=spec["nan_ok"] and draw(st.integers(0, 3)) == 0,
             high=draw(st.integers(0, 3)) > 0))
     case["partition"] = draw(st.lists(
-        st.sampled_from([1, 2, 2, 3, 3, 4, 5, 6, 8]), min_size=1,
+        st.sampled_from([3, 2, 4, 1, 2, 5, 3, 6, 8]), min_size=1,
         max_size=10))
     return case
 
@@ -152,10 +152,14 @@ class _Run:
                 avail = obs * b - getattr(o, "queried_samples_", 0)
                 if self.name == "PeriodicSampling":
                     return bool(avail >= 1)
-                return bool(o.allow_exceeding_budget or avail > 1)
+                if o.allow_exceeding_budget:
+                    return None  # no budget guard at all
+                return bool(avail > 1)
             bm = R.manager_of(self.kind, o)
             if bm is None:
-                return None
+                # nothing accounted yet: every boolean guard is open
+                return (None if self.spec["bm"] ==
+                        "BalancedIncrementalQuantileFilter" else True)
             b = getattr(bm, "budget_", bm.budget)
             if hasattr(bm, "w") and not hasattr(bm, "w_tol"):
                 return bool(getattr(bm, "u_t_", 0) / bm.w < b)
@@ -288,7 +292,6 @@ def run_case(case):
     for (lo, hi) in chunks:
         m = hi - lo
         sizes.add(1 if m == 1 else 2 if m <= 3 else 4)
-        pat = c.density_pattern(lo, hi)
         size_t = "chunk_size>1" if m > 1 else "chunk_size=1"
         ok, res = c.query(lo, hi)
         if not ok:
@@ -300,6 +303,9 @@ def run_case(case):
         if v:
             viol.extend(v)
             return done()
+        # (read after the query, which creates the lazily initialised
+        # windows; the query itself is pure - C03)
+        pat = c.density_pattern(lo, hi)
         # predicates over the input (for triggers and non-triviality)
         later_passes = earlier_filtered_before_query = False
         if pat is not None:
@@ -329,6 +335,15 @@ def run_case(case):
         if compare:
             if is_strategy and u is not None:
                 same_bits = (b"".join(ref["util"][lo:hi]) == _bits(u))
+                if not same_bits and not spec["clf"]:
+                    # the baselines draw their utilities themselves: they
+                    # are part of what must not depend on the chunking
+                    viol.append(Violation(
+                        comp, "chunking_dependent_utilities", guard_t,
+                        f"chunk [{lo},{hi}): utilities "
+                        f"{np.asarray(u).tolist()} differ from the "
+                        f"one-by-one run (equal state at chunk start)"))
+                    return done()
                 if not same_bits:
                     bitwise_ok = False
                     compare = False
